@@ -59,7 +59,8 @@ func oppositeAngleSum(p1, p2, o1, o2 model3d.Coord3D) float64 {
 	for _, o := range []model3d.Coord3D{o1, o2} {
 		v1 := p1.Sub(o)
 		v2 := p2.Sub(o)
-		sum += math.Acos(v1.Normalize().Dot(v2.Normalize()))
+		// the expression of /repo since 9d5c866 (before: math.Acos(v1.Normalize().Dot(v2.Normalize())))
+		sum += math.Atan2(v1.Cross(v2).Norm(), v1.Dot(v2))
 	}
 	return sum
 }
@@ -169,10 +170,42 @@ func cyclicPrism(c *hlib.Ctx) mesh3 {
 		poly = pick()
 		label = fmt.Sprintf("cyclic(circle,N=%d,k=%d)", N, len(poly))
 		if kind >= 3 {
-			for tries := 0; tries < 60 && bothAbovePi(poly, 0) == 0; tries++ {
-				poly = pick()
+			// Since /repo 9d5c866 (Atan2) both computed sums of a co-circular quad with INTEGER corners
+			// are exactly math.Pi (all 194 580 quads of the 48 points of x^2+y^2 = 5525, and of six more
+			// circles).  Corners divided by 3, 5, 7, 9, 10 or 11 (what SubdivideEdges(m, 3) makes of
+			// such a cap) are still co-circular up to rounding, and about one quad in a thousand has
+			// BOTH sums at pi + 4.4e-16: search for one (the code's own float expression) and make it
+			// the first fan quad; further points of the circle may follow.
+			q := []float64{3, 3, 5, 7, 9, 10, 11}[c.Rng.Intn(7)]
+			sp := make([][2]float64, len(ps))
+			for i, p := range ps {
+				sp[i] = [2]float64{(float64(p[0]) + ox) / q, (float64(p[1]) + oy) / q}
 			}
-			label = fmt.Sprintf("cyclic(circle-directed,N=%d,k=%d)", N, len(poly))
+			at := func(i int) model3d.Coord3D { return model3d.XYZ(sp[i][0], sp[i][1], 0) }
+			found := false
+			for tries := 0; tries < 40000 && !found && len(sp) >= 4; tries++ {
+				idx := c.Rng.Perm(len(sp))[:4]
+				sort.Ints(idx)
+				a, b, cc, d := at(idx[0]), at(idx[1]), at(idx[2]), at(idx[3])
+				if oppositeAngleSum(a, cc, b, d) > math.Pi && oppositeAngleSum(b, d, a, cc) > math.Pi {
+					found = true
+					poly = [][2]float64{sp[idx[0]], sp[idx[1]], sp[idx[2]], sp[idx[3]]}
+					for j := idx[3] + 1; j < len(sp); j++ {
+						if c.Rng.Intn(3) == 0 {
+							poly = append(poly, sp[j])
+						}
+					}
+				}
+			}
+			if found {
+				exactPts = false
+				label = fmt.Sprintf("cyclic(circle-directed,N=%d/%g,k=%d)", N, q, len(poly))
+			} else {
+				for tries := 0; tries < 60 && bothAbovePi(poly, 0) == 0; tries++ {
+					poly = pick()
+				}
+				label = fmt.Sprintf("cyclic(circle-directed,N=%d,k=%d)", N, len(poly))
+			}
 		}
 	case kind == 6:
 		// isosceles trapezoid / stack of trapezoids symmetric about the y axis: (+-a_i, h_i) all on one
@@ -321,4 +354,156 @@ func arcOutline(c *hlib.Ctx) (mesh2, float64) {
 		eps = []float64{1e-3, 1e-4, 1e-5}[c.Rng.Intn(3)]
 	}
 	return mesh2{polyMesh(q), label, false}, eps
+}
+
+// needleMesh: a thin surface whose flips run through needle triangles.  Two families:
+//   * a torus with a TRIANGULAR cross-section (3 rings) and a small minor radius, 7..9 segments,
+//     squashed to 2^-2 .. 2^-7 along its axis, blurred once or twice, then edge-subdivided by 3 or 4
+//     (rows of exactly colinear vertices on every old edge).  On these FlipDelaunay makes triangles
+//     with three colinear corners, and pairs of them on four colinear points.  Three defects of
+//     /repo were found here (first seen as `flip3 terminates=0` on an 864-face mesh of this kind):
+//     the cosine of a degenerate angle rounded to 1.0000000000000002, Acos = NaN, a NaN sum fails
+//     `sum < pi+1e-8`: endless flip/flip-back, about every second mesh (078e20f); Acos is only
+//     accurate to 1.5e-8 near 0 and pi, both diagonals of a degenerate pair got pi+1.49e-8:
+//     endless, ~3% of the map orders (9d5c866: Atan2); the orientation of the new triangles was
+//     taken from the NaN normal of a degenerate triangle: one face reversed, about half of the map
+//     orders (48d8902: winding);
+//   * any torus / icosphere / cylinder / icosahedron squashed to 1/16 .. 1/256 and edge-subdivided.
+func needleMesh(c *hlib.Ctx) mesh3 {
+	org := model3d.XYZ(dy(c, 2, 2), dy(c, 2, 2), dy(c, 2, 2))
+	if c.Rng.Intn(3) == 0 {
+		return capMesh(c, org)
+	}
+	if c.Rng.Intn(3) != 0 {
+		out := 7 + c.Rng.Intn(3)
+		r := []float64{0.05, 0.1, 0.1, 0.2}[c.Rng.Intn(4)]
+		m := model3d.NewMeshTorus(org, model3d.Z(1), r, 1, 3, out)
+		k := 2 + c.Rng.Intn(6)
+		f := math.Ldexp(1, -k)
+		m = m.MapCoords(func(p model3d.Coord3D) model3d.Coord3D { return p.Mul(model3d.XYZ(1, 1, f)) })
+		nb := 1 + c.Rng.Intn(2)
+		for i := 0; i < nb; i++ {
+			m = m.Blur(0.3)
+		}
+		n := 4
+		if c.Rng.Intn(4) == 0 {
+			n = 3
+		}
+		m = model3d.SubdivideEdges(m, n)
+		return mesh3{m, fmt.Sprintf("needle(torus3x%d,r=%g,squash=2^-%d,blur=%d,subdiv=%d)", out, r, k, nb, n), false}
+	}
+	var m *model3d.Mesh
+	label := ""
+	switch c.Rng.Intn(6) {
+	case 0, 1, 2:
+		in, out := 3+c.Rng.Intn(4), 3+c.Rng.Intn(8)
+		m = model3d.NewMeshTorus(org, model3d.Z(1), 0.4, 1, in, out)
+		label = "torus"
+	case 3:
+		m = model3d.NewMeshIcosphere(org, 1, 1+c.Rng.Intn(2))
+		label = "icosphere"
+	case 4:
+		m = model3d.NewMeshCylinder(org, org.Add(model3d.Z(1)), 0.5, 3+c.Rng.Intn(8))
+		label = "cylinder"
+	default:
+		m = model3d.NewMeshIcosahedron()
+		label = "icosahedron"
+	}
+	f := math.Ldexp(1, -(4 + c.Rng.Intn(5)))
+	s := model3d.XYZ(1, 1, f)
+	if c.Rng.Intn(3) == 0 {
+		s = model3d.XYZ(f, 1, 1)
+	}
+	m = m.MapCoords(func(p model3d.Coord3D) model3d.Coord3D { return p.Mul(s) })
+	n := 1 + c.Rng.Intn(4)
+	for m.NumTriangles()*n*n > 900 && n > 1 {
+		n--
+	}
+	if n > 1 {
+		m = model3d.SubdivideEdges(m, n)
+	}
+	return mesh3{m, fmt.Sprintf("needle(%s,squash=%g,subdiv=%d)", label, f, n), false}
+}
+
+// capMesh: a closed manifold with a few CAP triangles: on 2..12 edges x0 x1 the face (x0, x1, x2) is
+// replaced by (x0, x1, m), (x1, x2, m), (x2, x0, m) with m the midpoint of the edge moved towards x2 by
+// 0 (three colinear corners, area 0 - what FlipDelaunay itself makes of edge-subdivided meshes), by a
+// few ulps, or by 1e-12 of the edge.  The angle at m is pi (to rounding), so FlipDelaunay flips the
+// long edge x0 x1 away; the normal of the cap is NaN or arbitrary, so the orientation of the two new
+// triangles must not be read from it (/repo fix 48d8902; before it, about half of such flips
+// reversed a face).
+func capMesh(c *hlib.Ctx, org model3d.Coord3D) mesh3 {
+	var m *model3d.Mesh
+	label := ""
+	switch c.Rng.Intn(4) {
+	case 0:
+		m = model3d.NewMeshIcosphere(org, 1, 1+c.Rng.Intn(2))
+		label = "icosphere"
+	case 1:
+		m = model3d.NewMeshTorus(org, model3d.Z(1), 0.4, 1, 3+c.Rng.Intn(4), 3+c.Rng.Intn(6))
+		label = "torus"
+	case 2:
+		m = gridBox(org, 1+c.Rng.Intn(3), 1+c.Rng.Intn(3), 1+c.Rng.Intn(2), model3d.XYZ(0.5, 0.75, 1))
+		label = "gridbox"
+	default:
+		m = model3d.NewMeshIcosahedron()
+		label = "icosahedron"
+	}
+	tris := m.TriangleSlice()
+	sort.Slice(tris, func(i, j int) bool {
+		for k := 0; k < 3; k++ {
+			if tris[i][k] != tris[j][k] {
+				return less3(tris[i][k], tris[j][k])
+			}
+		}
+		return false
+	})
+	caps := 2 + c.Rng.Intn(11)
+	used := map[*model3d.Triangle]bool{}
+	made := 0
+	for _, idx := range c.Rng.Perm(len(tris)) {
+		if made >= caps {
+			break
+		}
+		t := tris[idx]
+		// keep the caps apart: neither this face nor a neighbour across an edge was touched
+		free := !used[t]
+		for _, sg := range t.Segments() {
+			for _, t2 := range m.Find(sg[0], sg[1]) {
+				if used[t2] {
+					free = false
+				}
+			}
+		}
+		if !free {
+			continue
+		}
+		r := c.Rng.Intn(3)
+		x0, x1, x2 := t[r], t[(r+1)%3], t[(r+2)%3]
+		mid := x0.Mid(x1)
+		var delta float64
+		switch c.Rng.Intn(3) {
+		case 0:
+			delta = 0
+		case 1:
+			delta = math.Ldexp(1, -50-c.Rng.Intn(4))
+		default:
+			delta = 1e-12
+		}
+		p := mid.Add(x2.Sub(mid).Scale(delta))
+		if len(m.Find(p)) > 0 || p == x0 || p == x1 {
+			continue
+		}
+		for _, sg := range t.Segments() {
+			for _, t2 := range m.Find(sg[0], sg[1]) {
+				used[t2] = true
+			}
+		}
+		m.Remove(t)
+		m.Add(&model3d.Triangle{x0, x1, p})
+		m.Add(&model3d.Triangle{x1, x2, p})
+		m.Add(&model3d.Triangle{x2, x0, p})
+		made++
+	}
+	return mesh3{m, fmt.Sprintf("needle(caps=%d,%s)", made, label), false}
 }
